@@ -73,6 +73,13 @@ Theorem transform_env_independent_pml_order_refuted :
 Proof. intros macro_name H. exact (transform_pml_order_refuted_lemma macro_name pinned_variant eq_refl H). Qed.
 Print Assumptions transform_env_independent_pml_order_refuted.
 
+(* U: what "iterated in address order" means in the model of std::map<DOMElement*, ...>: whatever the insertion
+   (document) order, the blocks come in strictly ascending order of the keys' addresses *)
+Theorem machine_map_iterates_in_address_order :
+  forall (A : Type) (l : list (N * A)), keys_ascending (addr_map l).
+Proof. exact addr_map_ascending. Qed.
+Print Assumptions machine_map_iterates_in_address_order.
+
 (* refuted for the code as pinned, VHDL back-end: two environments with the same layout and different std::hash *)
 Theorem transform_env_independent_vhdl_refuted :
   forall render_vhdl,
